@@ -284,6 +284,15 @@ func getProposalOperationFunc(pctx context.Context) (
 					case !found:
 						return true, isaac.ErrOperationNotFoundInProcessor.Errorf("not found in remote")
 					default:
+						// NOTE the operation from remote is not validated yet
+						if err := i.IsValid(isaacparams.NetworkID()); err != nil {
+							return false, isaac.ErrInvalidOperationInProcessor.Errorf("invalid operation from remote: %v", err)
+						}
+
+						if !i.Hash().Equal(operationhash) {
+							return false, isaac.ErrInvalidOperationInProcessor.Errorf("operation hash does not match")
+						}
+
 						op = i
 
 						return false, nil
